@@ -105,7 +105,10 @@ pub fn walk_table<'a>(s: &mut Session, cx: &mut Ctx, t: &(dyn SomeTable<'a> + 'a
     let mut dummy = vec![];
     for i in 0..MAX_FIELDS {
         if let Some(f) = t.get_field(i) {
-            fields.push(format!("{}={}", f.name, render(&f.value, &mut dummy, 0)));
+            // fields the traversal cannot render (16-byte CompatibilityId …) are hidden on both sides
+            if !matches!(f.value, FieldType::Unknown) {
+                fields.push(format!("{}={}", f.name, render(&f.value, &mut dummy, 0)));
+            }
             children(f.value, &mut kids);
         }
     }
